@@ -94,7 +94,26 @@ def labels_of(label):
 
 
 def run_unit(unit_name, rlimit=None, extra_args=()):
+    extract.FORCE_LOST.clear()
     r = _run_unit(unit_name, rlimit, extra_args)
+    # a body Verus / rustc refuses (an std call without a specification, a construct outside the subset - typically after a refactoring) makes the WHOLE unit undecided; keep the
+    # failure local instead: the functions the compile errors point into are retried as functions whose extraction failed (contract kept, body not verified, reported under `lost`),
+    # at most twice - what they carry is undecided, the rest of the unit is decided as before
+    for _attempt in range(2):
+        owners = r.get("compile_error_owners") or {}
+        if not owners or not r["infra"]:
+            break
+        known = set(f["path"] for f in r["functions"] if not f["external"])
+        pick = {o: why for o, why in owners.items() if o in known and o not in extract.FORCE_LOST}
+        if not pick:
+            break
+        extract.FORCE_LOST.update(pick)
+        try:
+            r = _run_unit(unit_name, rlimit, extra_args)
+        except Exception:
+            extract.FORCE_LOST.clear()
+            raise
+    extract.FORCE_LOST.clear()
     if rlimit is None and any("rlimit" in x.lower() or "resource limit" in x.lower() for x in r["infra"]):
         # a solver resource limit is not a verdict: retry once with a ten times larger budget
         r2 = _run_unit(unit_name, 100, extra_args)
@@ -181,6 +200,7 @@ def _run_unit(unit_name, rlimit=None, extra_args=()):
         except Exception:
             pass
     failures, canary_failed, infra = [], set(), []
+    compile_error_owners = {}
     for d in diags:
         if d.get("level") != "error":
             continue
@@ -191,6 +211,11 @@ def _run_unit(unit_name, rlimit=None, extra_args=()):
         kind = classify(msg)
         if not prim or kind is None or d.get("code"):
             infra.append(msg + (" @%s:%s" % (prim[0]["file_name"], prim[0]["line_start"]) if prim else ""))
+            # which function under contract the compile error points into (run_unit retries with that body left out)
+            if prim and os.path.basename(prim[0].get("file_name", "")) == os.path.basename(out) and 0 < prim[0]["line_start"] <= len(origin):
+                ow = origin[prim[0]["line_start"] - 1].get("owner")
+                if ow and origin[prim[0]["line_start"] - 1].get("kind") not in ("spec", "raw", "ghost", "prelude"):
+                    compile_error_owners.setdefault(ow, msg[:160])
             continue
         sp = prim[0]
         macro_name = None
@@ -299,7 +324,7 @@ def _run_unit(unit_name, rlimit=None, extra_args=()):
             if not any(short.endswith(ff.split("@")[-1]) or (ff and ff.split("::")[-1] == short.split("::")[-1]) for ff in failed_fns if ff):
                 infra.append("function %s failed without a mapped diagnostic (rlimit/timeout?)" % fname)
     return dict(unit=unit_name, obligations=obligations, failures=failures, canaries=canary_ok, infra=infra,
-                functions=u.functions, counts=dict(u.counts), shapes=getattr(u.counts, "per_owner", {}), lost=u.lost, dropped=u.dropped, diffs=u.diffs, trusted=trusted,
+                functions=u.functions, compile_error_owners=compile_error_owners, counts=dict(u.counts), shapes=getattr(u.counts, "per_owner", {}), lost=u.lost, dropped=u.dropped, diffs=u.diffs, trusted=trusted,
                 cmd="cd %s && %s" % (BUILD, " ".join(cmd)), wall_s=wall, verus=vr, times=times, gen_path=out,
                 verus_version=(summary or {}).get("verus", {}).get("version"),
                 gen_sha=hashlib.sha256(text.encode()).hexdigest()[:16], raw_stderr=p.stderr)
